@@ -243,6 +243,26 @@ func (r *run) iVote(as *assembling, d TxD) []txMeta {
 	if len(contents) == 0 {
 		return nil
 	}
+	if d.F&32 != 0 && as.height >= r.cfg().DPoSV2StartHeight {
+		// DPoS v2 era: the same choices as a Voting payload backed by stake rights
+		feeIn := r.pickUTXO(as, v.addr, txFee, false, d.B)
+		if feeIn == nil {
+			return nil
+		}
+		var vcs []payload.VotesContent
+		for _, ct := range contents {
+			vc := payload.VotesContent{VoteType: ct.VoteType}
+			for _, cv := range ct.CandidateVotes {
+				votes := cv.Votes
+				if votes > stakeRights/4 {
+					votes = stakeRights / 4
+				}
+				vc.VotesInfo = append(vc.VotesInfo, payload.VotesWithLockTime{Candidate: cv.Candidate, Votes: votes})
+			}
+			vcs = append(vcs, vc)
+		}
+		return one(txMeta{kind: "Voting:" + kind[4:], tx: votingTx(v, vcs, feeIn, txFee)})
+	}
 	tx := voteTx(v, in, amount, contents, txFee)
 	if err := tx.Outputs()[0].Payload.Validate(); err != nil {
 		return nil
